@@ -196,3 +196,68 @@ pub mod atomic {
     hooked_atomic!(AtomicUsize, std::sync::atomic::AtomicUsize, usize);
     hooked_atomic!(AtomicU64, std::sync::atomic::AtomicU64, u64);
 }
+
+/// `std::sync::RwLock` with a scheduling point before every acquisition AND before a write guard is released
+/// (so that the holder of the write lock can be suspended while it still holds it); a lock held by a suspended
+/// task is waited for cooperatively, `try_read` / `try_write` report it as busy
+#[derive(Debug, Default)]
+pub struct RwLock<T>(std::sync::RwLock<T>);
+
+pub struct RwLockWriteGuard<'a, T>(Option<std::sync::RwLockWriteGuard<'a, T>>, usize);
+
+impl<T> RwLock<T> {
+    pub const fn new(t: T) -> Self {
+        Self(std::sync::RwLock::new(t))
+    }
+    fn id(&self) -> usize {
+        self as *const Self as *const () as usize
+    }
+    pub fn read(&self) -> LockResult<std::sync::RwLockReadGuard<'_, T>> {
+        let id = self.id();
+        super::point(PointKind::Lock, "rwlock.read", id);
+        loop {
+            match self.0.try_read() {
+                Ok(g) => return Ok(g),
+                Err(TryLockError::Poisoned(p)) => return Err(p),
+                Err(TryLockError::WouldBlock) => super::contended(id),
+            }
+        }
+    }
+    pub fn try_read(&self) -> TryLockResult<std::sync::RwLockReadGuard<'_, T>> {
+        super::point(PointKind::Lock, "rwlock.try_read", self.id());
+        self.0.try_read()
+    }
+    pub fn write(&self) -> LockResult<RwLockWriteGuard<'_, T>> {
+        let id = self.id();
+        super::point(PointKind::Lock, "rwlock.write", id);
+        loop {
+            match self.0.try_write() {
+                Ok(g) => return Ok(RwLockWriteGuard(Some(g), id)),
+                Err(TryLockError::Poisoned(p)) => {
+                    return Err(PoisonError::new(RwLockWriteGuard(Some(p.into_inner()), id)))
+                }
+                Err(TryLockError::WouldBlock) => super::contended(id),
+            }
+        }
+    }
+}
+
+impl<T> Deref for RwLockWriteGuard<'_, T> {
+    type Target = T;
+    fn deref(&self) -> &T {
+        self.0.as_ref().unwrap()
+    }
+}
+impl<T> DerefMut for RwLockWriteGuard<'_, T> {
+    fn deref_mut(&mut self) -> &mut T {
+        self.0.as_mut().unwrap()
+    }
+}
+impl<T> Drop for RwLockWriteGuard<'_, T> {
+    fn drop(&mut self) {
+        if !std::thread::panicking() {
+            super::point(PointKind::Lock, "rwlock.write.release", self.1);
+        }
+        self.0.take();
+    }
+}
